@@ -420,6 +420,21 @@ def builtin_call(self, name, n, env):
             return V(sf.decl(ops.coerce(v, sf.args[0]).t, ops.coerce(cv, sf.args[1]).t), BOOL)
         tnames = [t.id if isinstance(t, ast.Name) else getattr(t, "attr", "?") for t in (tn.elts if isinstance(tn, ast.Tuple) else [tn])]
         return V(self.isinstance_of(v, tnames), BOOL)
+    if name == "hasattr" and len(n.args) == 2 and isinstance(n.args[1], ast.Constant) and isinstance(n.args[1].value, str):
+        # hasattr(x, "name") is decided by the declared sort of x: a dict has the dict methods, a list / tuple / number / string has none of
+        # them, an object has what its class (MRO) declares as a method under contract or as a field
+        v = self.ev(n.args[0], env)
+        attr = n.args[1].value
+        s_ = v.s.inner if isinstance(v.s, OptS) else v.s
+        if isinstance(s_, MapS):
+            return V(z3.BoolVal(attr in ("keys", "values", "items", "get", "pop", "update", "setdefault", "clear", "popitem", "copy")), BOOL)
+        if isinstance(s_, (SeqS, TupS)) or s_ in (INT, REAL, BOOL, STR):
+            if attr in ("keys", "values", "items"):
+                return V(z3.BoolVal(False), BOOL)
+            raise E.Unsupported("hasattr(<%r>, %r)" % (s_, attr))
+        if isinstance(s_, RefS):
+            return V(z3.BoolVal(self.eng.find_contract(s_.cls, attr) is not None or self.eng.field_decl(s_.cls, attr) is not None), BOOL)
+        raise E.Unsupported("hasattr on sort %r" % (s_,))
     if name in ("list", "tuple", "iter"):
         if not n.args:
             return V(None, SeqS(NONE))
@@ -640,6 +655,7 @@ def seq_method(self, recv, f, n, env):
         self.assume(*ax)
         self.assign(f.value, v)
         self.last_removed_at = p
+        self.env.locals["_removed_at"] = V(p, INT)      # position of the removed element, for ghost code / use-clauses
         return E.none_v()
     if m == "clear":
         self.assign(f.value, ops.seq_empty(recv.s))
